@@ -350,6 +350,13 @@ def none_guarded(node, chain):
                 for v in p.values[:idx]:
                     if is_none_test(v, chain) is False:
                         return True
+        if isinstance(p, ast.BoolOp) and isinstance(p.op, ast.Or):
+            # `a is None or use(a)`: the later operands are evaluated only when a is not None
+            idx = next((i for i, v in enumerate(p.values) if v is child), None)
+            if idx is not None:
+                for v in p.values[:idx]:
+                    if is_none_test(v, chain) is True:
+                        return True
         if isinstance(p, ast.Compare) and child is p.left and is_none_test(p, chain) is not None:
             return True
         # previous siblings in the same body: early-exit guard `if chain is None: return|raise`
